@@ -296,6 +296,14 @@ impl World {
                 self.snap();
                 self.rx_phase = 1;
                 let k = self.plan[1];
+                // C06: abandon the request while the receive side is inside its buffer (directed: the
+                // random inner steps rarely pick exactly this slot's future)
+                if self.mode == "c06" && self.futs[slot as usize].is_some() && rng.chance(1, 3) {
+                    let saved = self.in_window;
+                    self.in_window = true;
+                    self.drop_fut(slot as usize);
+                    self.in_window = saved;
+                }
                 self.run_inner(k, rng);
                 let bytes = self.win_rx.clone().unwrap();
                 let plen = (u16::from_le_bytes([bytes[14], bytes[15]]) & 0x7ff) as usize;
@@ -305,6 +313,12 @@ impl World {
                 self.snap();
                 self.rx_phase = 2;
                 let k = self.plan[2];
+                if self.mode == "c06" && self.futs[slot as usize].is_some() && rng.chance(1, 4) {
+                    let saved = self.in_window;
+                    self.in_window = true;
+                    self.drop_fut(slot as usize);
+                    self.in_window = saved;
+                }
                 self.run_inner(k, rng);
                 self.ops.push(format!("{{\"o\":\"rxend\",\"k\":{}}}", slot));
             }
